@@ -645,13 +645,13 @@ def outcomes(ctx, rng, factor):
     # the validator rejects without a word on stderr (diagnostics on stdout only, a wrapper or JVM dying silently)
     silent_codes = [1, 2, 3, 137] if not ctx.quick() else [1, rng.choice([2, 3]), 137]
     for code in silent_codes:
-        outs.append({"tag": "exit>0-silent", "kind": "exit", "code": code, "stderr": ""})
+        outs.append({"tag": "exit>0-silent", "kind": "exit", "code": code, "stderr": "", "few_forms": ctx.quick() and code != silent_codes[0]})
     outs.append({"tag": "exit>0-blank-stderr", "kind": "exit", "code": rng.choice([1, 2, 3, 137]), "stderr": rng.choice(["\n", " ", "\r\n\t"])})
     outs.append({"tag": "exit>0-latin1", "kind": "exit", "code": 1, "stderr_hex": "café /data/g/q1\n".encode("latin-1").hex()})
     outs.append({"tag": "jar-unreadable", "kind": "exit", "code": 1, "stderr": JARFILE + " /opt/x/pyxform/validators/odk_validate/bin/ODK_Validate.jar\n"})
     outs.append({"tag": "jar-corrupt", "kind": "exit", "code": 1, "stderr": "Error: Invalid or corrupt jarfile /opt/x/pyxform/validators/odk_validate/bin/ODK_Validate.jar\n"})
     for sig in ctx.pick([9, 15], [9, 15, 6, 11]):
-        outs.append({"tag": "killed", "kind": "kill", "code": sig, "stderr": rng.choice(["", "partial /data/g/q1"])})
+        outs.append({"tag": "killed", "kind": "kill", "code": sig, "stderr": rng.choice(["", "partial /data/g/q1"]), "few_forms": ctx.quick() and sig != 9})
     outs.append({"tag": "timeout", "kind": "sleep"})
     outs.append({"tag": "java-absent", "kind": "absent"})
     return outs
@@ -668,14 +668,18 @@ def modes(rng):
 
 
 def explore(ctx, factor, bs):
+    import time
+
     rng = ctx.rng
+    t0 = time.time()
+    phases = ctx.notes.setdefault("phase_wall_s", {})
     # (a) args logic: all 8 rows
     for skip in (False, True):
         for odk in (False, True):
             for enk in (False, True):
                 args_case(ctx, skip, odk, enk)
     # (b) cleaner, function level
-    n_clean = ctx.pick(2000, 120000) * min(factor, 3)
+    n_clean = ctx.pick(1500, 120000) * min(factor, 3)
     for i in range(n_clean):
         cleaner_case(ctx, gen_stderr(rng, p_odd=0.0))
     # directed shapes: marker assembled by deleting exception names (C18-F1, repaired); guard of cleaner_paths_to_refs (C18-F2)
@@ -689,11 +693,15 @@ def explore(ctx, factor, bs):
         cleaner_case(ctx, pre + rng.choice(["", "Foo", "x y"]) + mk[:i] + pre + mk[i:] + rng.choice(["", "12 broke", " org.X.y(Z)"]) + "\n" + rng.choice(["", "kept /data/g/q1\n"]))
     for i in range(ctx.pick(60, 600)):
         cleaner_case(ctx, gen_stderr(rng, p_odd=0.5, directed=False))
+    phases["args+cleaner"] = round(time.time() - t0, 1)
     # (c) the matrix
     with c18_env.Sandbox() as sb:
         add_ext_forms(rng)
         forms = {fid: abstract_form(sb, fid) for fid in FORMS}
+        t1 = time.time()
         hasext_cases(ctx, sb, rng)
+        phases["baselines+hasext"] = round(time.time() - t1, 1)
+        t2 = time.time()
         ctx.notes["form_kinds"] = {fid: forms[fid]["k"] for fid in forms}
         ctx.notes["timeouts"] = (f"the watchdog path is exercised with {c18_env.SHORT_TIMEOUT}s instead of the literal "
                                  f"100 s (wrapper around the call in check_xform, 'sleep' outcome only); the literal is tied by the table c18ValidatorTimeout")
@@ -707,6 +715,8 @@ def explore(ctx, factor, bs):
                 if f.get("few_outcomes") and outcome is not outs[0] and outcome is not outs[1]:
                     continue
                 limited = f.get("fault") or fid in ("early", "late", "lang")
+                if f.get("fault") and ctx.quick() and outcome["tag"] not in ("exit0-silent", "java-absent"):
+                    continue
                 if limited and outcome["tag"] not in ("exit0-silent", "exit0-stderr", "exit>0-named-paths", "java-absent", "killed"):
                     continue  # validator never reached (failed write, conversion error) / same path as `warn`: a few environments suffice
                 for mode in modes(rng):
@@ -716,6 +726,7 @@ def explore(ctx, factor, bs):
                         mode = dict(mode, pretty=False)  # the position in the codec's message depends on the layout
                     for pre in ((False, True) if mode["kind"] == "cli" else (False,)):
                         run_case(ctx, sb, forms, fid, outcome, mode, pre)
+        phases["matrix"] = round(time.time() - t2, 1)
         # directed: output path named like the itemsets file (known finding C18-F3)
         silent = outs[0]
         run_case(ctx, sb, forms, "itemsets", silent, {"kind": "cli", "json": True, "skip": True, "odk": False, "out": "itemsets.csv"}, False)
